@@ -515,6 +515,27 @@ func (g *c18Gen) generate(thorough bool, n int) {
 		[]byte(`{"id":"gapbq","indexSchema":{"v":{"type":"vectorFlat","vectorFlat":{"vectorSize":4,"distanceMetric":"euclidean","quantizer":{"type":"binary","binary":{"threshold":0.5,"triggerThreshold":-5,"distanceMetric":"hamming"}}}}}}`)))
 	g.add(spec("gap:bq-trigger-without-threshold", "mutated", "POST", "/v2/collections", "alice", ctJ,
 		[]byte(`{"id":"gapbq","indexSchema":{"v":{"type":"vectorFlat","vectorFlat":{"vectorSize":4,"distanceMetric":"euclidean","quantizer":{"type":"binary","binary":{"triggerThreshold":50001,"distanceMetric":"hamming"}}}}}}`)))
+	// a point quota between the size of one request and a plausible internal slice of it (1500): 2000 points into an
+	// empty collection and into one that already holds 100 are refused as a whole; 1500 and 1400 + 100 are accepted
+	mcol := spec("setup", "valid", "POST", "/v2/collections", "mia", ctJ, jObj("id", jStr("mcol1"), "indexSchema", jObj()).JSON())
+	mpts := func(n int) []byte {
+		xs := make([]*jv, n)
+		for i := range xs {
+			xs[i] = jObj("k", jInt(int64(i)))
+		}
+		return jObj("points", jArr(xs...)).JSON()
+	}
+	m100 := spec("setup", "valid", "POST", "/v2/collections/mcol1/points", "mia", ctJ, mpts(100))
+	for _, v := range []struct {
+		tag   string
+		n     int
+		setup []xspec
+	}{{"plan:mid-2000-into-empty", 2000, []xspec{mcol}}, {"plan:mid-2000-into-100", 2000, []xspec{mcol, m100}},
+		{"plan:mid-1500-into-empty", 1500, []xspec{mcol}}, {"plan:mid-1400-into-100", 1400, []xspec{mcol, m100}}, {"plan:mid-1401-into-100", 1401, []xspec{mcol, m100}}} {
+		sx := spec(v.tag, "valid", "POST", "/v2/collections/mcol1/points", "mia", ctJ, mpts(v.n))
+		sx.Setup = v.setup
+		g.add(sx)
+	}
 	// a v2 collection whose vamana index named vector has the smallest search size the API allows (25), used through
 	// the v1 API: v1 searches may ask for up to 75 points
 	ss25 := spec("setup", "valid", "POST", "/v2/collections", "alice", ctJ,
